@@ -506,7 +506,7 @@ func runC07(cfg *vh.Config) error {
 					res.Fail(vh.Failure{Case: caseNo, Stream: "decl", Sig: fmt.Sprintf("C07 decl %s: %s fails on a package that compiles (%s)", d.Name, call, truncate(errClass(l.Err.Error()), 60)), Clause: "every package within the documented language is accepted and links (lint / LSP path: reports, does not fail)", Input: lin, Got: l.Err.Error()})
 				case l.Err == nil && len(l.Pos) > 0 && c.Err == nil && c.Panic == nil && !c.TimedOut:
 					res.Count("decl_lint_report_on_accepted")
-				res.Sample(map[string]any{"stream": "decl", "decl": d.Name, "call": call, "lint_report_on_accepted_package": truncate(l.Human, 200)}, 6)
+					res.Sample(map[string]any{"stream": "decl", "decl": d.Name, "call": call, "lint_report_on_accepted_package": truncate(l.Human, 200)}, 6)
 				default:
 					res.Count("decl_lint_ok")
 				}
